@@ -16,18 +16,22 @@ structure WF (k : KillRing) : Prop where
   idx_lt : k.slots ≠ [] → k.index < k.slots.length
   idx_zero : k.slots = [] → k.index = 0
   kill_ne : k.lastAction = .kill → 0 < k.cap → k.slots ≠ []
+  /-- the slot yank reads (D33 repair: the yank-pop position is kept apart from `index`) -/
+  yidx_lt : k.slots ≠ [] → k.yankIndex < k.slots.length
+  /-- a kill ends the rotation of yank-pop: during a kill sequence yank reads the slot being written -/
+  kill_yidx : k.lastAction = .kill → 0 < k.cap → k.yankIndex = k.index
 
 theorem wf_new (n : Nat) : WF (new n) :=
-  ⟨by simp [new], by simp [new], by simp [new], by simp [new]⟩
+  ⟨by simp [new], by simp [new], by simp [new], by simp [new], by simp [new], by simp [new]⟩
 
 theorem wf_reset {k : KillRing} (h : WF k) : WF k.reset :=
-  ⟨h.len_le, h.idx_lt, h.idx_zero, by simp [reset]⟩
+  ⟨h.len_le, h.idx_lt, h.idx_zero, by simp [reset], h.yidx_lt, by simp [reset]⟩
 
 theorem wf_startKilling {k : KillRing} (h : WF k) : WF k.startKilling :=
-  ⟨h.len_le, h.idx_lt, h.idx_zero, h.kill_ne⟩
+  ⟨h.len_le, h.idx_lt, h.idx_zero, h.kill_ne, h.yidx_lt, h.kill_yidx⟩
 
 theorem wf_stopKilling {k : KillRing} (h : WF k) : WF k.stopKilling :=
-  ⟨h.len_le, h.idx_lt, h.idx_zero, h.kill_ne⟩
+  ⟨h.len_le, h.idx_lt, h.idx_zero, h.kill_ne, h.yidx_lt, h.kill_yidx⟩
 
 /-- the slot index a fresh kill goes to (`kill` from a non-kill last action) -/
 def nextIdx (k : KillRing) : Nat :=
@@ -84,7 +88,7 @@ theorem kill_fresh {k : KillRing} (h : WF k) (hk : k.lastAction ≠ .kill) (hc :
   obtain ⟨h1, h2⟩ := nextIdx_le h hc
   have hlen := h.len_le
   by_cases he : nextIdx k = k.slots.length
-  · refine ⟨{ k with lastAction := .kill, index := nextIdx k, slots := k.slots ++ [text] }, ?_, rfl, rfl, ?_, rfl, rfl,
+  · refine ⟨{ k with lastAction := .kill, index := nextIdx k, yankIndex := nextIdx k, slots := k.slots ++ [text] }, ?_, rfl, rfl, ?_, rfl, rfl,
       Or.inl rfl, ?_, ?_⟩
     · simp only [kill, hb, Bool.false_eq_true, if_false, hc']
       have : (nextIdx k == k.slots.length) = true := by simpa using he
@@ -95,7 +99,7 @@ theorem kill_fresh {k : KillRing} (h : WF k) (hk : k.lastAction ≠ .kill) (hc :
     · have := h2 he; simp; omega
     · simp [he]
   · have hlt : nextIdx k < k.slots.length := by omega
-    refine ⟨{ k with lastAction := .kill, index := nextIdx k, slots := k.slots.set (nextIdx k) text }, ?_, rfl, rfl, ?_,
+    refine ⟨{ k with lastAction := .kill, index := nextIdx k, yankIndex := nextIdx k, slots := k.slots.set (nextIdx k) text }, ?_, rfl, rfl, ?_,
       rfl, rfl, Or.inr rfl, ?_, ?_⟩
     · simp only [kill, hb, Bool.false_eq_true, if_false, hc']
       have hne : (nextIdx k == k.slots.length) = false := by simpa using he
@@ -105,6 +109,27 @@ theorem kill_fresh {k : KillRing} (h : WF k) (hk : k.lastAction ≠ .kill) (hc :
     · simp [hlt]
     · simpa using hlen
     · simpa using hlt
+
+/-- a new kill ends the rotation of yank-pop: yank reads the slot just written -/
+theorem kill_fresh_yank {k k' : KillRing} (hk : k.lastAction ≠ .kill) (hc : 0 < k.cap) {text : Text} {dir : KMode}
+    (he : k.kill text dir = .ok k') : k'.yankIndex = k'.index := by
+  have hb : (k.lastAction == KAction.kill) = false := by simpa using hk
+  have hc' : (k.cap == 0) = false := by simp; omega
+  have key : ∀ idx : Nat,
+      (if (idx == k.slots.length) = true then
+          Except.ok ({ k with lastAction := .kill, index := idx, yankIndex := idx, slots := k.slots ++ [text] } : KillRing)
+        else if idx < k.slots.length then
+          Except.ok { k with lastAction := .kill, index := idx, yankIndex := idx, slots := k.slots.set idx text }
+        else Except.error Panic.panic) = Except.ok k' → k'.yankIndex = k'.index := by
+    intro idx hh
+    split at hh
+    · cases hh; rfl
+    · split at hh
+      · cases hh; rfl
+      · cases hh
+  unfold kill at he
+  simp only [hb, Bool.false_eq_true, if_false, hc'] at he
+  exact key _ he
 
 theorem kill_cap0 {k : KillRing} (hc : k.cap = 0) (text : Text) (dir : KMode) :
     k.kill text dir = .ok { k with lastAction := .kill } := by
@@ -121,30 +146,34 @@ theorem wf_kill {k : KillRing} (h : WF k) (text : Text) (dir : KMode) :
   by_cases hc : k.cap = 0
   · refine ⟨_, kill_cap0 hc text dir, ?_, rfl, rfl⟩
     have hlen := h.len_le
-    exact ⟨h.len_le, h.idx_lt, h.idx_zero, by intro _ h0; simp [hc] at h0⟩
+    exact ⟨h.len_le, h.idx_lt, h.idx_zero, by intro _ h0; simp [hc] at h0, h.yidx_lt, by intro _ h0; simp [hc] at h0⟩
   · have hc : 0 < k.cap := by omega
     by_cases hk : k.lastAction = .kill
     · obtain ⟨s, hs, he⟩ := kill_cont h hk hc text dir
       refine ⟨_, he, ?_, rfl, rfl⟩
       have hne := h.kill_ne hk hc
-      refine ⟨by simpa using h.len_le, ?_, ?_, ?_⟩
+      refine ⟨by simpa using h.len_le, ?_, ?_, ?_, ?_, ?_⟩
       · intro _; simpa using h.idx_lt hne
       · intro h0; simp at h0; exact absurd h0 hne
       · intro _ _; simpa using hne
+      · intro _; simpa using h.yidx_lt hne
+      · intro _ _; exact h.kill_yidx hk hc
     · obtain ⟨k', he, ha, hi, hs, hcap, hkl, hsl, hlen, hidx⟩ := kill_fresh h hk hc text dir
       refine ⟨k', he, ?_, hcap, hkl⟩
-      refine ⟨by omega, fun _ => hidx, ?_, ?_⟩
+      refine ⟨by omega, fun _ => hidx, ?_, ?_, ?_, ?_⟩
       · intro h0; rw [h0] at hidx; simp at hidx
       · intro _ _ h0; rw [h0] at hidx; simp at hidx
+      · intro _; rw [kill_fresh_yank hk hc he]; exact hidx
+      · intro _ _; exact kill_fresh_yank hk hc he
 
 theorem yank_ok {k : KillRing} (h : WF k) :
     (k.slots = [] ∧ k.yank = .ok (k, none)) ∨
-    (∃ s, k.slots[k.index]? = some s ∧ k.yank = .ok ({ k with lastAction := .yank (blen s) }, some s)) := by
+    (∃ s, k.slots[k.yankIndex]? = some s ∧ k.yank = .ok ({ k with lastAction := .yank (blen s) }, some s)) := by
   by_cases he : k.slots = []
   · left; simp [yank, he]
   · right
-    have hl := h.idx_lt he
-    have hget : k.slots[k.index]? = some k.slots[k.index] := List.getElem?_eq_getElem hl
+    have hl := h.yidx_lt he
+    have hget : k.slots[k.yankIndex]? = some k.slots[k.yankIndex] := List.getElem?_eq_getElem hl
     refine ⟨_, hget, ?_⟩
     have : k.slots.isEmpty = false := by simpa using he
     simp only [yank, this, Bool.false_eq_true, if_false, hget]
@@ -153,20 +182,20 @@ theorem wf_yank {k : KillRing} (h : WF k) :
     ∃ k' r, k.yank = .ok (k', r) ∧ WF k' ∧ k'.cap = k.cap ∧ k'.slots = k.slots := by
   rcases yank_ok h with ⟨_, he⟩ | ⟨s, _, he⟩
   · exact ⟨_, _, he, h, rfl, rfl⟩
-  · exact ⟨_, _, he, ⟨h.len_le, h.idx_lt, h.idx_zero, by simp⟩, rfl, rfl⟩
+  · exact ⟨_, _, he, ⟨h.len_le, h.idx_lt, h.idx_zero, by simp, h.yidx_lt, by simp⟩, rfl, rfl⟩
 
 /-- the slot index `yankPop` moves to -/
-def prevIdx (k : KillRing) : Nat := if k.index == 0 then k.slots.length - 1 else k.index - 1
+def prevIdx (k : KillRing) : Nat := if k.yankIndex == 0 then k.slots.length - 1 else k.yankIndex - 1
 
 theorem prevIdx_lt {k : KillRing} (h : WF k) (he : k.slots ≠ []) : prevIdx k < k.slots.length := by
-  have hl := h.idx_lt he
+  have hl := h.yidx_lt he
   unfold prevIdx
   split <;> omega
 
 theorem yankPop_ok {k : KillRing} (h : WF k) (size : Nat) (hy : k.lastAction = .yank size)
     (he : k.slots ≠ []) :
     ∃ s, k.slots[prevIdx k]? = some s ∧
-      k.yankPop = .ok ({ k with index := prevIdx k, lastAction := .yank (blen s) }, some (size, s)) := by
+      k.yankPop = .ok ({ k with yankIndex := prevIdx k, lastAction := .yank (blen s) }, some (size, s)) := by
   have hl := prevIdx_lt h he
   have hget : k.slots[prevIdx k]? = some k.slots[prevIdx k] := List.getElem?_eq_getElem hl
   refine ⟨_, hget, ?_⟩
@@ -184,15 +213,30 @@ theorem wf_yankPop {k : KillRing} (h : WF k) :
     by_cases he : k.slots = []
     · exact ⟨k, none, by simp [yankPop, hy, he], h, rfl, rfl⟩
     · obtain ⟨s, _, hp⟩ := yankPop_ok h size hy he
-      refine ⟨_, _, hp, ⟨h.len_le, fun _ => prevIdx_lt h he, fun h0 => absurd h0 he, by simp⟩, rfl, rfl⟩
+      refine ⟨_, _, hp, ⟨h.len_le, h.idx_lt, h.idx_zero, by simp, fun _ => prevIdx_lt h he, by simp⟩, rfl, rfl⟩
 
 theorem wf_onDelete {k : KillRing} (h : WF k) (text : Text) (dir : Direction) :
     ∃ k', k.onDelete text dir = .ok k' ∧ WF k' ∧ k'.cap = k.cap := by
   unfold onDelete
   split
   · exact ⟨k, rfl, h, rfl⟩
-  · obtain ⟨k', he, hw, hc, _⟩ := wf_kill h text (match dir with | .forward => .append | .backward => .prepend)
-    exact ⟨k', he, hw, hc⟩
+  · cases dir with
+    | forward => obtain ⟨k', he, hw, hc, _⟩ := wf_kill h text .append; exact ⟨k', he, hw, hc⟩
+    | backward => obtain ⟨k', he, hw, hc, _⟩ := wf_kill h text .prepend; exact ⟨k', he, hw, hc⟩
+    | around n =>
+      simp only []
+      have h1 : ∃ k1, (if (cutBytes text n).1.isEmpty then .ok k else k.kill (cutBytes text n).1 .prepend) = Except.ok k1
+          ∧ WF k1 ∧ k1.cap = k.cap := by
+        split
+        · exact ⟨k, rfl, h, rfl⟩
+        · obtain ⟨k', he, hw, hc, _⟩ := wf_kill h (cutBytes text n).1 .prepend; exact ⟨k', he, hw, hc⟩
+      obtain ⟨k1, he1, hw1, hc1⟩ := h1
+      rw [he1]
+      simp only []
+      split
+      · exact ⟨k1, rfl, hw1, hc1⟩
+      · obtain ⟨k', he, hw, hc, _⟩ := wf_kill hw1 (cutBytes text n).2 .append
+        exact ⟨k', he, hw, by rw [hc, hc1]⟩
 
 end KillRing
 
@@ -472,8 +516,8 @@ def popSpec (slots : List Text) (idx : Nat) : Nat → Nat → List (Option (Nat 
 
 theorem popN_spec (j : Nat) (k : KillRing) (h : WF k) (size : Nat) (hy : k.lastAction = .yank size)
     (hne : k.slots ≠ []) :
-    ∃ k', popN j k = .ok (k', popSpec k.slots k.index size j) ∧ k'.slots = k.slots ∧
-      k'.index = cycN k.slots.length k.index j ∧ k'.cap = k.cap ∧ WF k' ∧
+    ∃ k', popN j k = .ok (k', popSpec k.slots k.yankIndex size j) ∧ k'.slots = k.slots ∧
+      k'.yankIndex = cycN k.slots.length k.yankIndex j ∧ k'.cap = k.cap ∧ WF k' ∧
       (∃ sz, k'.lastAction = .yank sz) := by
   induction j generalizing k size with
   | zero => exact ⟨k, rfl, rfl, rfl, rfl, h, size, hy⟩
@@ -484,12 +528,12 @@ theorem popN_spec (j : Nat) (k : KillRing) (h : WF k) (size : Nat) (hy : k.lastA
     obtain ⟨k', he, hsl, hidx, hcap, hw', hl⟩ := ih _ hw1 (blen s) rfl hne
     refine ⟨k', ?_, hsl, ?_, hcap, hw', hl⟩
     · simp only [popN, hp, he, popSpec]
-      have : k.slots.getD (cyc k.slots.length k.index) [] = s := by
-        have : cyc k.slots.length k.index = prevIdx k := rfl
+      have : k.slots.getD (cyc k.slots.length k.yankIndex) [] = s := by
+        have : cyc k.slots.length k.yankIndex = prevIdx k := rfl
         rw [this, List.getD_eq_getElem?_getD, hs]; rfl
       rw [this]; rfl
     · rw [hidx]
-      show cycN k.slots.length (cyc k.slots.length k.index) j = cycN k.slots.length k.index (j + 1)
+      show cycN k.slots.length (cyc k.slots.length k.yankIndex) j = cycN k.slots.length k.yankIndex (j + 1)
       clear he hidx ih
       induction j with
       | zero => rfl
@@ -500,4 +544,13 @@ theorem blen_replicate_flatten (n : Nat) (t : Text) : blen (List.replicate n t).
   induction n with
   | zero => simp
   | succ m ih => simp [List.replicate_succ, ih, Nat.mul_succ, Nat.add_comm]
+
+/-- cutting `before ++ after` at the byte length of `before` (`delete_around`) -/
+theorem cutBytes_append (b a : Text) : cutBytes (b ++ a) (blen b) = (b, a) := by
+  induction b with
+  | nil => cases a <;> simp [cutBytes]
+  | cons c b ih =>
+    have hpos := Char.utf8Size_pos c
+    have hne : ¬ (c.utf8Size + blen b = 0) := by omega
+    simp only [List.cons_append, blen_cons, cutBytes, hne, if_false, Nat.add_sub_cancel_left, ih, List.cons]
 
